@@ -70,6 +70,10 @@ def run(ctx, col, tier):
     repo = ctx.repo
     from ..rules import stateless as _stateless_memo
     _stateless_memo.run_memo(ctx, col)
+    from ..rules import smalllints as _small
+    _small.run_rounds(ctx, col, ('swcgeom.core.swc_utils.subtree', 'swcgeom.core.swc_utils.base', 'swcgeom.core.tree_utils', 'swcgeom.core.tree_utils_impl'))
+    from ..rules import rowslice as _rowslice
+    _rowslice.run(ctx, col, ('swcgeom.core.tree', 'swcgeom.core.tree_utils', 'swcgeom.core.tree_utils_impl', 'swcgeom.core.swc_utils.base', 'swcgeom.core.swc_utils.subtree', 'swcgeom.core.swc_utils.normalizer', 'swcgeom.transforms.tree'))
     from ..rules import rootpos as _rootpos
     _rootpos.run(ctx, col, ('swcgeom.core.tree_utils', 'swcgeom.core.tree_utils_impl', 'swcgeom.core.tree', 'swcgeom.transforms.tree', 'swcgeom.core.swc_utils.subtree'))
     col.rule("R-UNIF", "kept nodes' columns are gathered for the source's whole key set with the "
@@ -144,6 +148,7 @@ def run(ctx, col, tier):
     col.guard(sentinels, ctx, col)
     col.guard(compaction, ctx, col)
     col.guard(selection, ctx, col)
+    col.guard(node_subtree_start, ctx, col)
 
     for q, what in ((f"{TU}.get_subtree", "get_subtree"), (f"{TU}.to_subtree", "to_subtree"),
                     (f"{TU}.cut_tree", "cut_tree")):
@@ -520,3 +525,25 @@ def anchored(ctx, col):
         ("the root is at level 0", ["if parent_level is None: level = 0\nelif n.is_furcation(): level = parent_level + 1\nelse: level = parent_level"], "levels"),
         ("nodes at or beyond the maximum order are cut", ["return (level, level >= self.max_furcation_order)"], "threshold"),
     ])
+
+
+
+def node_subtree_start(ctx, col):
+    """A node handle's sub-tree starts at the node's ID (a key of the parent relation), not at the position the handle was created with:
+    handles made with a negative position (`tree.node(-1)`) have idx < 0 while id is the real id; the children index has no key -k, and
+    the key -1 is the 'no parent' marker, so the walk returns one node -- or the whole tree hanging under a phantom copy."""
+    d = ctx.repo.get_def("swcgeom.core.tree.Tree.Node.subtree")
+    calls = [c for c in own_nodes(d) if isinstance(c, ast.Call) and (dotted(c.func) or "").rsplit(".", 1)[-1] in ("get_subtree_impl", "get_subtree") and len(c.args) >= 2]
+    if len(calls) != 1:
+        col.unresolved("R-SELECT", d.qualname, d.loc(), "Node.subtree starts the extraction at the node's id", f"{len(calls)} extraction calls", stmt="node-subtree-start")
+        return
+    a = norm_src(calls[0].args[1])
+    if a == "self.id":
+        col.ok("R-SELECT", d.qualname, d.loc(calls[0]), "Node.subtree starts the extraction at the node's id", norm_src(calls[0])[:80], stmt="node-subtree-start")
+    elif a == "self.idx":
+        col.add("R-SELECT", d.qualname, d.loc(calls[0]), "Node.subtree starts the extraction at the node's id", "VIOLATION",
+                f"`{norm_src(calls[0])[:80]}` starts at `self.idx`, the position the handle was made with: for a handle made with a negative position (tree.node(-1), "
+                f"the idiom for 'last node') that is not a key of the parent relation (-1 is the 'no parent' marker), so the result is a single node or the whole tree under a "
+                f"phantom root", stmt="node-subtree-start", definite=True)
+    else:
+        col.unresolved("R-SELECT", d.qualname, d.loc(calls[0]), "Node.subtree starts the extraction at the node's id", f"start argument `{a}`", stmt="node-subtree-start")
